@@ -1,3 +1,4 @@
+import Sparrow.Proofs.KangRecvEquiv
 import Sparrow.Proofs.KangFnEquiv
 import Sparrow.Proofs.KangArrayLemmas
 import Sparrow.Proofs.KangPipelineLemmas
@@ -249,3 +250,70 @@ theorem exchangeCell_eq (before : ℝ) (receiver : Nat → ℝ) (c fs : ℝ) (n 
   Sparrow.exchangeCell_eq before receiver c fs n walls absorption scattering att f t ht hd
 
 end Sparrow.Props.C19.KangFn
+
+namespace Sparrow.Props.C19.KangRecv
+open Sparrow Sparrow.Generated.KangFn
+
+/-- one patch, one order, one band at the receiver (Kang eq. 20): the patch histogram delayed by the patch-receiver bins with
+    truncation, weighted by `cos ξ · exp(-m R) / (π R²)` — the model's `kangRecvFactor` -/
+theorem receiverContribution_eq (center recv normal : Nat → ℝ) (c fs : ℝ) (E : Nat → ℝ) (n : Nat) (att : Nat → ℝ) (f : Nat)
+    (hd : binKang (Vec3.norm (Vec3.sub (Vec3.ofFn center) (Vec3.ofFn recv))) c fs ≤ n) :
+    ∃ g, receiverContribution center recv normal c fs E n att f = some g ∧
+      ∀ t, t < n → g t =
+        if binKang (Vec3.norm (Vec3.sub (Vec3.ofFn center) (Vec3.ofFn recv))) c fs ≤ t then
+          E (t - binKang (Vec3.norm (Vec3.sub (Vec3.ofFn center) (Vec3.ofFn recv))) c fs) *
+            kangRecvFactor (Vec3.ofFn normal) (Vec3.ofFn center) (Vec3.ofFn recv) (att f)
+        else 0 :=
+  Sparrow.receiverContribution_eq center recv normal c fs E n att f hd
+
+/-- **the loops of `PatchesKang.energy_at_receiver`**: the response is additive over patches and orders -/
+theorem receiverCell_eq (recv : Nat → ℝ) (c fs : ℝ) (n K : Nat) (patches : List ((Nat → ℝ) × (Nat → ℝ) × (Nat → Nat → ℝ)))
+    (att : Nat → ℝ) (f t : Nat) (ht : t < n)
+    (hd : ∀ p ∈ patches, binKang (Vec3.norm (Vec3.sub (Vec3.ofFn p.1) (Vec3.ofFn recv))) c fs ≤ n) :
+    receiverCell recv c fs n K patches att f t = some ((patches.map (kangRecvTerm recv c fs K att f t)).sum) :=
+  Sparrow.receiverCell_eq recv c fs n K patches att f t ht hd
+
+/-- nothing arrives at the receiver before the patch-receiver travel time of the nearest patch -/
+theorem receiverCell_silent_before (recv : Nat → ℝ) (c fs : ℝ) (n K : Nat)
+    (patches : List ((Nat → ℝ) × (Nat → ℝ) × (Nat → Nat → ℝ))) (att : Nat → ℝ) (f t : Nat) (ht : t < n)
+    (hd : ∀ p ∈ patches, binKang (Vec3.norm (Vec3.sub (Vec3.ofFn p.1) (Vec3.ofFn recv))) c fs ≤ n)
+    (hearly : ∀ p ∈ patches, t < binKang (Vec3.norm (Vec3.sub (Vec3.ofFn p.1) (Vec3.ofFn recv))) c fs) :
+    receiverCell recv c fs n K patches att f t = some 0 :=
+  Sparrow.receiverCell_silent_before recv c fs n K patches att f t ht hd hearly
+
+/-- **direct-sound law of the Kang engine** (recognised text): bin `int(r/c·fs)`, value `exp(-m r) / (4 π r²)` per band -/
+theorem directSoundKang_eq (recv src : Nat → ℝ) (M : Nat → ℝ) (c fs : ℝ) :
+    directSoundKang recv src M c fs =
+      (binKang (Vec3.norm (Vec3.sub (Vec3.ofFn recv) (Vec3.ofFn src))) c fs,
+       fun b => directSound (Vec3.norm (Vec3.sub (Vec3.ofFn recv) (Vec3.ofFn src))) (M b)) :=
+  Sparrow.directSoundKang_eq recv src M c fs
+
+
+theorem directSoundKang_law (recv src : Nat → ℝ) (M : Nat → ℝ) (c fs : ℝ) (b : Nat) :
+    (directSoundKang recv src M c fs).2 b =
+      Real.exp (-(M b) * Vec3.norm (Vec3.sub (Vec3.ofFn recv) (Vec3.ofFn src))) /
+        (4 * Real.pi * (Vec3.norm (Vec3.sub (Vec3.ofFn recv) (Vec3.ofFn src))) ^ 2) :=
+  Sparrow.directSoundKang_law recv src M c fs b
+
+/-- **call schedule of `RadiosityKang.run`**: an exchange of order `k+1` is issued only after every wall's exchange of order `k`
+    (for `k ≥ 1`) — the order recursion reads complete order-`k` histograms -/
+theorem runSchedule_order (nW K w w' k : Nat) (hw : w < nW) (hw' : w' < nW) (hk : 1 ≤ k) (hk' : k + 1 ≤ K) (h2 : 1 < nW) :
+    ∃ i j : Nat, i < j ∧ (runSchedule nW K)[i]? = some (KangCall.exchange w' k) ∧
+      (runSchedule nW K)[j]? = some (KangCall.exchange w (k + 1)) :=
+  Sparrow.runSchedule_order nW K w w' k hw hw' hk hk' h2
+
+/-- every wall is initialised before any exchange is issued -/
+theorem runSchedule_init_first (nW K w w' k : Nat) (hw : w < nW) (hw' : w' < nW) (hk : 1 ≤ k) (hk' : k ≤ K) (h2 : 1 < nW) :
+    ∃ i j : Nat, i < j ∧ (runSchedule nW K)[i]? = some (KangCall.init w') ∧
+      (runSchedule nW K)[j]? = some (KangCall.exchange w k) :=
+  Sparrow.runSchedule_init_first nW K w w' k hw hw' hk hk' h2
+
+/-- each call is issued exactly once -/
+theorem runSchedule_nodup (nW K : Nat) : (runSchedule nW K).Nodup :=
+  Sparrow.runSchedule_nodup nW K
+
+/-- a single wall: initialisation only (no form factors, no exchange) -/
+theorem runSchedule_single (K : Nat) : runSchedule 1 K = [KangCall.init 0] :=
+  Sparrow.runSchedule_single K
+
+end Sparrow.Props.C19.KangRecv
